@@ -16,6 +16,7 @@ pub fn run(id: &str, tier: &str, seed: u64) -> Result<String, String> {
         "truncation" => crate::truncation::truncation(tier),
         "bgzf-seek-read" => crate::bgzfseek::bgzf_seek_read(tier),
         "chunked-readers" => crate::chunked::chunked_readers(tier),
+        "writer-sinks" => crate::sinks::writer_sinks(tier),
         "cram-decoders-hostile" => cram_decoders_hostile(tier, seed),
         n if n.starts_with("file-") && n.contains(':') => { let (t, h) = n[5..].split_once(':').unwrap(); let x: Vec<u8> = (0..h.len() / 2).map(|i| u8::from_str_radix(&h[2 * i..2 * i + 2], 16).unwrap()).collect(); let ts = crate::hostile::targets(); let t = ts.iter().find(|k| k.name == t).ok_or("unknown target")?; (t.run)(&x); Ok("\"ran\":1".into()) }
         "file-mutations" => crate::hostile::parent(tier, None),
